@@ -12,8 +12,8 @@ def spec(tier):
         # outcomes: symbolic durations/memory (OOM), arrival ticks and suspension tick
         for (q1, q2) in ([(0, 0)] + ([(P - 1, 0), (P - 1, P - 1)] if (P > 1 and (th or P == 2)) else [])):
             obs.append(CH(name=f"outcomes_P{P}_q{q1}{q2}", harness="c09.ledger",
-                          sym=dict(t1=I(0, 2), t2=I(0, 3) if th else I(1, 2), d0=I(1, 2), m0=I(9, 12), m1=I(9, 12), sus_t=I(-1, 3)),
-                          fixed=dict(P=P, q0=0, q1=q1, q2=q2, d1=1, d2=2, m2=1, sus_pool=0), timeout=900))
+                          sym=dict(t1=I(0, 3) if th else I(0, 2), t2=I(0, 4) if th else I(1, 2), d0=I(1, 3) if th else I(1, 2), m0=I(1, 14) if th else I(9, 12), m1=I(1, 14) if th else I(9, 12), sus_t=I(-1, 5) if th else I(-1, 3)),
+                          fixed=dict(P=P, q0=0, q1=q1, q2=q2, d1=1, d2=2, m2=1, sus_pool=0, K=9 if th else 7), timeout=2400 if th else 900))
     # success iff all operators completed, for multi-segment operators whose trailing segment may round to zero ticks
     obs.append(CH(name="outcome_states", harness="c09.outcome_states",
                   sym=dict(r0=I(0, 25), d0=I(0, 1), r1=I(0, 25), d1=I(0, 1), dy=I(0, 2), alloc=I(1, 6), my=I(0, 7)), fixed={}, timeout=900))
